@@ -48,10 +48,163 @@ pub fn cfg_text(ths: &[Th], concurrent: bool, red: Option<u16>) -> String {
     s
 }
 
+const M3: [&str; 3] = ["2", "3", "4"];
+
+/// ONE key whose press starts 2-3 tap-holds at once. `shape` 0: `(multi th (fork th XX (lalt)) …)` -
+/// the parser's one-tap-hold-per-multi check does not look inside `fork`; 1: a `switch` whose cases
+/// all hold and fall through (the actions go through the action queue, one per tick).
+fn several_text(shape: usize, ths: &[Th]) -> String {
+    let ms = [&M1, &M2, &M3];
+    let mut s = String::new();
+    if shape == 0 {
+        s.push_str("(multi");
+        for (i, th) in ths.iter().enumerate() {
+            if i == 0 {
+                s.push_str(&format!(" {}", th_text(th, ms[i])));
+            } else {
+                s.push_str(&format!(" (fork {} XX (lalt))", th_text(th, ms[i])));
+            }
+        }
+        s.push(')');
+    } else {
+        s.push_str("(switch");
+        for (i, th) in ths.iter().enumerate() {
+            s.push_str(&format!(" () {} {}", th_text(th, ms[i]), if i + 1 == ths.len() { "break" } else { "fallthrough" }));
+        }
+        s.push(')');
+    }
+    s
+}
+
+/// Family (4), aimed at keyberon/src/layout.rs: `do_action` HoldTap with `self.waiting` already set
+/// (`extra_waiting.push_back`), `process_extra_waitings`, the `idx >= 0` halves of
+/// `waiting_into_hold / _tap / _timeout`, `tick`'s branch "nothing in `waiting` but extras pending",
+/// and the queue-overflow path of `event` resolving every extra entry to hold.
+fn several_on_one_key(r: &mut Rng, thorough: bool, lines: &mut Vec<String>) {
+    let (ka, kb, kc, kd) = (code("a"), code("b"), code("c"), code("d"));
+    // (variant, T) of the 2-3 tap-holds: equal timeouts (the later entry loses a tick), later entry
+    // first, earlier entry first, press / release / timeout variants that decide on other keys
+    let shapes: Vec<Vec<(usize, u32)>> = vec![
+        vec![(0, 5), (0, 5)],
+        vec![(0, 8), (0, 3)],
+        vec![(0, 3), (0, 8)],
+        vec![(1, 6), (2, 6)],
+        vec![(2, 6), (1, 9)],
+        vec![(3, 4), (4, 7)],
+        vec![(0, 5), (1, 5), (2, 5)],
+        vec![(4, 6), (3, 3), (0, 9)],
+        vec![(5, 5), (6, 5)],
+    ];
+    let mut cfgs: Vec<(String, Vec<u32>)> = vec![];
+    for (i, sh) in shapes.iter().enumerate() {
+        for shape in 0..2 {
+            let ths: Vec<Th> = sh.iter().map(|(v, t)| Th { variant: *v, t: *t, interval: if (i + shape) % 3 == 0 { 4 } else { 0 } }).collect();
+            let mut s = String::from("(defcfg");
+            if (i + shape) % 2 == 0 {
+                s.push_str(" concurrent-tap-hold yes");
+            }
+            if i % 3 == 1 {
+                s.push_str(" rapid-event-delay 0");
+            }
+            s.push_str(")\n(defsrc a b c d)\n(deflayer l0 ");
+            s.push_str(&several_text(shape, &ths));
+            s.push_str(" (tap-hold 0 6 5 6) c d)\n");
+            let mut gaps: Vec<u32> = vec![0, 1];
+            for (_, t) in sh {
+                for g in [t - 1, *t, t + 1] {
+                    if !gaps.contains(&g) {
+                        gaps.push(g);
+                    }
+                }
+            }
+            cfgs.push((s, gaps));
+        }
+    }
+    for (cfg, gaps) in &cfgs {
+        // the key alone, held for every duration around the timeouts
+        for j in gaps.iter().copied().chain([14u32]) {
+            let mut h = vec![HEv::Press(0, ka)];
+            if j > 0 {
+                h.push(HEv::Tick(j));
+            }
+            h.push(HEv::Release(0, ka));
+            h.push(HEv::Tick(700));
+            lines.push(mk_line("LAY", false, cfg, &h));
+        }
+        // a plain key tapped / held inside the window: after g1 ticks, for g2 ticks
+        for g1 in [0u32, 1, 2] {
+            for g2 in [0u32, 1, 3] {
+                for release_first in [false, true] {
+                    let mut h = vec![HEv::Press(0, ka)];
+                    if g1 > 0 {
+                        h.push(HEv::Tick(g1));
+                    }
+                    h.push(HEv::Press(0, kc));
+                    if g2 > 0 {
+                        h.push(HEv::Tick(g2));
+                    }
+                    if release_first {
+                        h.push(HEv::Release(0, ka));
+                        h.push(HEv::Tick(1));
+                        h.push(HEv::Release(0, kc));
+                    } else {
+                        h.push(HEv::Release(0, kc));
+                        h.push(HEv::Tick(1));
+                        h.push(HEv::Release(0, ka));
+                    }
+                    h.push(HEv::Tick(700));
+                    lines.push(mk_line("LAY", false, cfg, &h));
+                }
+            }
+        }
+        // histories that END while entries are pending: the final digest then compares the
+        // countdowns of `waiting` / `extra_waiting` and the queue with the model
+        for j in [1u32, 2, 4] {
+            lines.push(mk_line("LAY", false, cfg, &[HEv::Press(0, ka), HEv::Tick(j)]));
+            lines.push(mk_line("LAY", false, cfg, &[HEv::Press(0, ka), HEv::Tick(1), HEv::Press(0, kc), HEv::Tick(j), HEv::Release(0, kc)]));
+            lines.push(mk_line("LAY", false, cfg, &[HEv::Press(0, kb), HEv::Tick(j), HEv::Press(0, ka), HEv::Tick(1)]));
+        }
+        // random schedules over the key, a second (ordinary) tap-hold key and two plain keys
+        for _ in 0..(if thorough { 200 } else { 12 }) {
+            let n_ev = r.range(2, 10) as usize;
+            let h = consistent_history(r, &[ka, kb, kc, kd], n_ev, gaps, 700);
+            lines.push(mk_line("LAY", false, cfg, &h));
+        }
+    }
+    // the queue overflows while the extras wait: every pending entry is resolved to hold at once
+    for shape in 0..2 {
+        let ths = [Th { variant: 0, t: 200, interval: 0 }, Th { variant: 0, t: 150, interval: 0 }, Th { variant: 2, t: 200, interval: 0 }];
+        let cfg = format!("(defcfg)\n(defsrc a b c d)\n(deflayer l0 {} b c d)\n", several_text(shape, &ths));
+        for n in [31usize, 32, 33, 40] {
+            for gap in [0u32, 1] {
+                let mut h = vec![HEv::Press(0, ka), HEv::Tick(4)];
+                for i in 0..n {
+                    let k = [kc, kd][(i / 2) % 2];
+                    h.push(if i % 2 == 0 { HEv::Press(0, k) } else { HEv::Release(0, k) });
+                    if gap > 0 {
+                        h.push(HEv::Tick(gap));
+                    }
+                }
+                h.push(HEv::Release(0, kc));
+                h.push(HEv::Release(0, kd));
+                h.push(HEv::Release(0, ka));
+                h.push(HEv::Tick(700));
+                lines.push(mk_line("LAY", false, &cfg, &h));
+            }
+        }
+    }
+}
+
 pub fn gen(tier: &str, seed: u64) -> Vec<String> {
     let mut r = Rng::new(seed ^ 0xC05);
     let thorough = tier == "thorough";
     let mut lines = vec![];
+    if tier == "cov" || tier == "covt" {
+        // only the families that were added to reach otherwise unexecuted code (debugging aid;
+        // "covt" = their thorough-tier size)
+        several_on_one_key(&mut r, tier == "covt", &mut lines);
+        return lines;
+    }
     let (ka, kb, kc, kd) = (code("a"), code("b"), code("c"), code("d"));
     // (1) lone key: every variant x T x concurrent x every hold duration around T
     for variant in 0..7 {
@@ -106,5 +259,7 @@ pub fn gen(tier: &str, seed: u64) -> Vec<String> {
         let h = consistent_history(&mut r, &[ka, kb, kc, kd], n_ev, &gaps, 700);
         lines.push(mk_line("LAY", false, &cfg, &h));
     }
+    // (4) several tap-holds started by one key press (extra_waiting)
+    several_on_one_key(&mut r, thorough, &mut lines);
     lines
 }
